@@ -17,6 +17,72 @@ type exprTr struct {
 	retKind string // "error" | "string"
 	hoisted []string
 	nidx    int
+	// import name -> path of the file that holds the function (the whitelisted calls must be the standard library's)
+	imports map[string]string
+	// named types of the package whose underlying type is string (a conversion to one is the identity on bytes)
+	stringTypes map[string]bool
+}
+
+// the whitelist: qualified call -> package it must come from.  The Gallina counterparts (coq/lib/Bytes.v: replace_first,
+// replace_all, path_escape, contains, contains_byte) are compared with the real functions in C08 / C19 on every run.
+var exprStdCalls = map[string]string{
+	"strings.Replace": "strings", "strings.ReplaceAll": "strings", "strings.Contains": "strings", "strings.ContainsRune": "strings",
+	"url.PathEscape": "net/url", "errors.New": "errors",
+}
+
+// stdCall returns the qualified name of the called function when it is a whitelisted standard-library call, after
+// checking that the qualifier is the import of that very package in this file (not a local package of the same name,
+// not a variable).
+func (t *exprTr) stdCall(e ast.Expr, at ast.Node) string {
+	fn := callName(e)
+	want, ok := exprStdCalls[fn]
+	if !ok {
+		return fn
+	}
+	q := strings.SplitN(fn, ".", 2)[0]
+	if got := t.imports[q]; got != want {
+		t.p.bad(at, "call %s: %s is not the import of %q in this file (it is %q)", fn, q, want, got)
+	}
+	return fn
+}
+
+func fileImports(p *pkg, fd *ast.FuncDecl) map[string]string { return importsAt(p, fd.Pos()) }
+
+// importsAt: import name -> import path of the file that contains pos
+func importsAt(p *pkg, pos token.Pos) map[string]string {
+	out := map[string]string{}
+	for _, f := range p.files {
+		if f.Pos() <= pos && pos < f.End() {
+			for _, im := range f.Imports {
+				path, _ := strconv.Unquote(im.Path.Value)
+				name := path[strings.LastIndex(path, "/")+1:]
+				if im.Name != nil {
+					name = im.Name.Name
+				}
+				out[name] = path
+			}
+		}
+	}
+	return out
+}
+
+func stringTypesOf(p *pkg) map[string]bool {
+	out := map[string]bool{}
+	for _, f := range p.files {
+		for _, d := range f.Decls {
+			gd, ok := d.(*ast.GenDecl)
+			if !ok || gd.Tok != token.TYPE {
+				continue
+			}
+			for _, s := range gd.Specs {
+				ts := s.(*ast.TypeSpec)
+				if identName(ts.Type) == "string" && ts.TypeParams == nil {
+					out[ts.Name.Name] = true
+				}
+			}
+		}
+	}
+	return out
 }
 
 func coqString(s string) string {
@@ -80,7 +146,7 @@ func (t *exprTr) strExpr(e ast.Expr) string {
 	case *ast.ParenExpr:
 		return t.strExpr(x.X)
 	case *ast.CallExpr:
-		fn := callName(x.Fun)
+		fn := t.stdCall(x.Fun, e)
 		switch fn {
 		case "strings.Replace":
 			if len(x.Args) == 4 {
@@ -94,8 +160,15 @@ func (t *exprTr) strExpr(e ast.Expr) string {
 			return fmt.Sprintf("(replace_all %s %s %s)", t.strExpr(x.Args[1]), t.strExpr(x.Args[2]), t.strExpr(x.Args[0]))
 		case "url.PathEscape":
 			return fmt.Sprintf("(path_escape %s)", t.strExpr(x.Args[0]))
-		case "TagName", "string":
-			return t.strExpr(x.Args[0])
+		case "string":
+			if len(x.Args) == 1 {
+				return t.strExpr(x.Args[0])
+			}
+		default:
+			// conversion to a named string type of the package
+			if t.stringTypes[fn] && t.p.funcs[fn] == nil && len(x.Args) == 1 {
+				return t.strExpr(x.Args[0])
+			}
 		}
 		t.p.bad(e, "call %s in string expression", fn)
 	}
@@ -151,7 +224,7 @@ func (t *exprTr) boolExpr(e ast.Expr) string {
 			return r
 		}
 	case *ast.CallExpr:
-		switch callName(x.Fun) {
+		switch t.stdCall(x.Fun, e) {
 		case "strings.Contains":
 			return fmt.Sprintf("(contains %s %s)", t.strExpr(x.Args[1]), t.strExpr(x.Args[0]))
 		case "strings.ContainsRune":
@@ -171,7 +244,7 @@ func (t *exprTr) retExpr(e ast.Expr) string {
 		if id, ok := e.(*ast.Ident); ok && id.Name == "nil" {
 			return "GOk None"
 		}
-		if c, ok := e.(*ast.CallExpr); ok && callName(c.Fun) == "errors.New" {
+		if c, ok := e.(*ast.CallExpr); ok && t.stdCall(c.Fun, e) == "errors.New" && len(c.Args) == 1 {
 			s, ok := t.strLit(c.Args[0])
 			if !ok {
 				t.p.bad(e, "errors.New argument")
@@ -266,18 +339,21 @@ func translateStringFunc(p *pkg, fname, coqName string) string {
 		p.bad(fd, "parameter type of %s", fname)
 	}
 	param := fd.Type.Params.List[0].Names[0].Name
-	t := &exprTr{p: p}
+	t := &exprTr{p: p, imports: fileImports(p, fd), stringTypes: stringTypesOf(p)}
 	if fd.Type.Results == nil || len(fd.Type.Results.List) != 1 {
 		p.bad(fd, "result list of %s", fname)
 	}
 	rt := "bytes"
 	switch r := fd.Type.Results.List[0].Type.(type) {
 	case *ast.Ident:
-		if r.Name == "error" {
+		switch {
+		case r.Name == "error":
 			t.retKind = "error"
 			rt = "(option bytes)"
-		} else {
+		case r.Name == "string" || t.stringTypes[r.Name]:
 			t.retKind = "string"
+		default:
+			p.bad(fd, "result type %s of %s: error, string or a named string type expected", r.Name, fname)
 		}
 	default:
 		p.bad(fd, "result type of %s", fname)
